@@ -240,10 +240,12 @@ _WIT = [None]
 
 
 def install(ctx):
-    pass
+    from ..core import set_process_time_zone
+    set_process_time_zone(ctx)
 
 
 def run(ctx):
+    install(ctx)
     from csep.core.catalogs import CSEPCatalog
     thorough = ctx.tier == "thorough"
     N = 5 if thorough else 4
